@@ -1237,6 +1237,12 @@ fn c19_script_timed(root: &Root, depth: u8, prehistory: &[(Root, u8)], stale_tim
 }
 
 /// Run a batch script, return the stdout after the last `readyok` (the segment under test).
+/// Hook events and `info time` lines of the last c19_run (a fixed-depth search must not be
+/// given a time budget: its result would depend on the wall clock as soon as it needs longer).
+thread_local! {
+    static C19_TIMERS: std::cell::RefCell<Vec<String>> = std::cell::RefCell::new(vec![]);
+}
+
 fn c19_run(lines: &[String], wrapper: &[String], envs: &[(String, String)]) -> Result<Vec<String>, String> {
     let bin = engine_bin(false);
     let (prog, args): (std::path::PathBuf, Vec<String>) = if wrapper.is_empty() {
@@ -1247,9 +1253,22 @@ fn c19_run(lines: &[String], wrapper: &[String], envs: &[(String, String)]) -> R
         (std::path::PathBuf::from(&wrapper[0]), a)
     };
     let argrefs: Vec<&str> = args.iter().map(|s| s.as_str()).collect();
-    let mut s = Session::spawn(&prog, &argrefs, envs, None).map_err(|e| format!("spawn {prog:?}: {e}"))?;
+    let dir = std::env::var("VH_WORKDIR").unwrap_or_else(|_| std::env::temp_dir().display().to_string());
+    let evlog = std::path::PathBuf::from(dir).join(format!("c19-events-{}.log", std::process::id()));
+    let mut s = Session::spawn(&prog, &argrefs, envs, Some(evlog)).map_err(|e| format!("spawn {prog:?}: {e}"))?;
     let mut text = String::new();
     for l in lines {
+        if let Some(ms) = l.strip_prefix("#sleep ") {
+            // interactive pause: send what has been collected, let the engine work, go on
+            s.send_bulk(&text);
+            text.clear();
+            let d = Duration::from_millis(ms.trim().parse().unwrap_or(0));
+            let dl = Instant::now() + d;
+            while Instant::now() < dl {
+                let _ = s.next(dl.saturating_duration_since(Instant::now()));
+            }
+            continue;
+        }
         text.push_str(l);
         text.push('\n');
     }
@@ -1260,6 +1279,13 @@ fn c19_run(lines: &[String], wrapper: &[String], envs: &[(String, String)]) -> R
     }
     let out = s.stdout_lines();
     let cut = out.iter().rposition(|l| l == "readyok").map(|i| i + 1).unwrap_or(0);
+    // timers armed for the segment under test (everything after the last readyok is depth-only)
+    let timed_script = lines.iter().any(|l| l.contains("movetime") || l.contains("wtime"));
+    let mut timers: Vec<String> = out[cut..].iter().filter(|l| l.starts_with("info time")).cloned().collect();
+    if !timed_script {
+        timers.extend(s.hook_events().iter().filter(|e| e.1 == "AFTER_TIMER_SPAWN" || e.1 == "TIMER_WAKE").map(|e| format!("hook event {}", e.1)));
+    }
+    C19_TIMERS.with(|t| *t.borrow_mut() = timers);
     Ok(out[cut..].to_vec())
 }
 
@@ -1299,6 +1325,13 @@ pub fn worker_c19(shard: usize, _nshards: usize, seed: u64, tier: &str, out: &mu
         };
         out.add("reference_transcripts", 1);
         out.add("reference_lines", base.len() as u64);
+        let timers = C19_TIMERS.with(|t| t.borrow().clone());
+        out.add("fixed_depth_searches_checked_for_timers", 1);
+        if !timers.is_empty() {
+            out.viol("C19", &format!("C19|timer|{}|{depth}", root.key()),
+                &format!("`go depth {depth}` (no time given) was given a time budget / timer thread: {timers:?}; its result depends on the wall clock whenever the search needs longer"),
+                json!({"kind":"repro","root":root.json(),"depth":depth,"variant":"timer armed for a fixed-depth search"}));
+        }
         if base.iter().filter(|l| l.starts_with("info pv")).count() >= 2 {
             out.add("transcripts_with_two_or_more_iterations", 1);
         }
@@ -1341,6 +1374,12 @@ pub fn worker_c19(shard: usize, _nshards: usize, seed: u64, tier: &str, out: &mu
             let timed_pre = vec![(small_root(&corpus, &mut rng), 1u8), (root.clone(), 1u8)];
             variants.push((format!("after timed searches (movetime {ms}) and ucinewgame"), c19_script_timed(&root, depth, &timed_pre, ms), vec![], vec![]));
         }
+        // a search still running when ucinewgame arrives (no stop first)
+        {
+            let mut script = vec![Cmd::Position(root.clone()).text(), "go infinite".to_string(), format!("#sleep {}", if long { 400 } else { 120 }), "ucinewgame".to_string()];
+            script.extend(c19_script(&root, depth, &[]));
+            variants.push(("after ucinewgame interrupted a running search".into(), script, vec![], vec![]));
+        }
         if long {
             out.add("long_references", 1);
         }
@@ -1372,13 +1411,15 @@ pub fn run_c19(tier: &str, seed: u64) -> (Check, Agg) {
     let agg = par::run_workers("C19", tier, seed, nshards, &[], Duration::from_secs(if tier == "thorough" { 10800 } else { 1500 }), None, &[]);
     chk.evaluations = agg.c("perturbed_runs") + agg.c("reference_transcripts");
     chk.distinct_nontrivial = agg.c("transcripts_with_two_or_more_iterations");
-    chk.rule = "case = (root, depth 3-7): the complete stdout of `position; go depth d; wait` from a fresh engine is the reference; it must be byte-identical to the same script repeated, pinned to one core (taskset), at nice 19, with ASLR off (setarch -R), with the environment padded by 64 KiB (moves the stack), with schedule points delayed, under 16-way load (all workers run concurrently), and to the segment after `ucinewgame` following an arbitrary pre-history (other positions), a related pre-history (the same root searched shallower and deeper, a neighbouring position) and a pre-history of timed searches whose timer threads are still alive (each worker also runs one long depth-7 reference so that those timers fire during the search under test). In-process: the same search on two separately allocated tables must agree. non-trivial = the reference completed at least two iterations.".into();
+    chk.rule = "case = (root, depth 3-7): the complete stdout of `position; go depth d; wait` from a fresh engine is the reference; it must be byte-identical to the same script repeated, pinned to one core (taskset), at nice 19, with ASLR off (setarch -R), with the environment padded by 64 KiB (moves the stack), with schedule points delayed, under 16-way load (all workers run concurrently), and to the segment after `ucinewgame` following an arbitrary pre-history (other positions), a related pre-history (the same root searched shallower and deeper, a neighbouring position), `ucinewgame` sent while a `go infinite` is still running, and a pre-history of timed searches whose timer threads are still alive (each worker also runs one long depth-7 reference so that those timers fire during the search under test). A `go depth N` without time parameters must not be given a time budget (no `info time` line, no timer hook event): otherwise its result depends on the wall clock as soon as it needs longer. non-trivial = the reference completed at least two iterations.".into();
     chk.assumptions = vec!["hardware and allocator cannot be varied in this sandbox".into()];
     chk.need("reference transcripts", agg.c("reference_transcripts"), 20);
     chk.need("perturbed runs", agg.c("perturbed_runs"), 120);
     chk.need("runs after pre-history + ucinewgame", agg.c("runs_after_a_pre-history_and_ucinewgame"), 20);
     chk.need("runs after a related pre-history + ucinewgame", agg.c("runs_after_a_related_pre-history_and_ucinewgame"), 20);
     chk.need("long references (depth 7) with stale timers", agg.c("long_references"), 8);
+    chk.need("runs after ucinewgame interrupted a running search", agg.c("runs_after_ucinewgame_interrupted_a_running_search"), 20);
+    chk.need("fixed-depth searches checked for armed timers", agg.c("fixed_depth_searches_checked_for_timers"), 20);
     (chk, agg)
 }
 
@@ -1391,5 +1432,78 @@ pub fn replay_c19(case: &Value, out: &mut Out) {
     println!("reference: {a:?}\nobserved:  {b:?}");
     if a != b {
         out.viol("C19", "replay", "transcripts differ", case.clone());
+    }
+}
+
+// ------------------------------------------------------------------------------------------
+// C08 at the UCI level: a depth limit combined with a time budget, and limits after deeper
+// searches, through the real binary. Decided on the `info depth` lines of each go.
+
+pub fn worker_c08uci(shard: usize, _nshards: usize, seed: u64, tier: &str, out: &mut Out) {
+    let corpus = gen::corpus();
+    let mut rng = Rng::new(seed, 0x08C1 + shard as u64);
+    let n = match tier {
+        "thorough" => 60,
+        _ => 5,
+    };
+    for i in 0..n {
+        let mut cmds = vec![];
+        let mut limits: Vec<u8> = vec![];
+        for _ in 0..5 {
+            let root = small_root(&corpus, &mut rng);
+            let d = 1 + rng.below(4) as u8;
+            let go = match rng.below(6) {
+                0 => format!("go depth {d} movetime {}", 1500 + rng.range(0, 1500)),
+                1 => format!("go movetime {} depth {d}", 1500 + rng.range(0, 1500)),
+                2 => format!("go wtime 300000 btime 300000 winc 2000 binc 2000 depth {d}"),
+                3 => format!("go depth {d} wtime 200000 btime 200000 winc 0 binc 0"),
+                _ => format!("go depth {d}"),
+            };
+            // sometimes a deeper search of the same position first (the table then holds a deeper entry)
+            if rng.chance(1, 3) {
+                cmds.push(Cmd::Position(root.clone()));
+                cmds.push(Cmd::GoDepth(d + 1 + rng.below(2) as u8));
+                cmds.push(Cmd::Await);
+                limits.push(0);
+            }
+            cmds.push(Cmd::Position(root));
+            cmds.push(Cmd::GoRaw(go));
+            cmds.push(Cmd::Await);
+            limits.push(d);
+        }
+        cmds.push(Cmd::Quit);
+        let script = Script { cmds, delays: vec![], checked_build: i % 3 == 2 };
+        let name = format!("C08-uci/{seed}/{shard}/{i}");
+        out.begin(&json!({"kind":"session","scenario":name,"script":script.json()}));
+        let res = run_script(&script, &format!("c08-{shard}-{i}"), Duration::from_secs(30));
+        out.add("uci_sessions", 1);
+        for (g, lim) in res.gos.iter().zip(limits.iter()) {
+            if *lim == 0 {
+                continue;
+            }
+            out.add("uci_limited_gos_judged", 1);
+            if g.cmd.contains("time") {
+                out.add("uci_limited_gos_with_a_time_budget", 1);
+            }
+            let deepest = g.depth_lines.iter().filter_map(|d| d.parse::<i64>().ok()).max().unwrap_or(0);
+            // an iteration deeper than the limit that was actually searched prints more than one
+            // deeper depth line or takes the time budget; a single cached report is tolerated
+            let deeper = g.depth_lines.iter().filter_map(|d| d.parse::<i64>().ok()).filter(|d| *d > *lim as i64).count();
+            if deeper >= 2 || (deeper >= 1 && g.ended_by != "self") {
+                out.viol("C08", &format!("C08|uci-deeper|{}", g.cmd),
+                    &format!("`{}` reported iterations up to depth {deepest} (limit {lim}): {:?}", g.cmd, g.depth_lines),
+                    json!({"kind":"session","scenario":name,"script":script.json(),"go":g.cmd}));
+            }
+            if g.bestmove.is_none() {
+                out.note(&format!("no bestmove for {}", g.cmd));
+            }
+        }
+        for (code, msg) in res.faults.iter().filter(|f| f.0 == "panic" || f.0 == "died") {
+            out.viol("C08", &format!("C08|uci-{code}|{name}"), msg, json!({"kind":"session","scenario":name,"script":script.json()}));
+        }
+        for (code, msg) in &res.silences {
+            out.viol("C08", &format!("C08|uci-{code}|{name}"), &format!("[{name}] {msg} (a depth-limited go must end by itself)"), json!({"kind":"session","scenario":name,"script":script.json()}));
+        }
+        out.end();
     }
 }
